@@ -123,4 +123,44 @@ theorem pending_none_of_unchecked (e : REnv) (inv : RInv e) (h : e.checking = fa
   | none => exact ⟨rfl, by rw [inv.flag, hp]; rfl⟩
   | some n => rw [hp] at hg; simp at hg
 
+theorem growLoop_mod (used chunk : Nat) : ∀ (fuel tot : Nat), tot % chunk = 0 →
+    growLoop used chunk fuel tot % chunk = 0 := by
+  intro fuel
+  induction fuel with
+  | zero => intro tot h; simpa [growLoop] using h
+  | succ n ih =>
+    intro tot h
+    simp only [growLoop]
+    split
+    · exact ih (tot + chunk) (by rw [Nat.add_mod, h]; simp)
+    · exact h
+
+/-- whenever `needs_resize` fires, the size it returns is a whole number of allocation chunks -/
+theorem needsResize_mod (mapSize used chunk : Nat) (h : (needsResize mapSize used chunk).1 = true) :
+    (needsResize mapSize used chunk).2 % chunk = 0 := by
+  unfold needsResize at h ⊢
+  simp only at h ⊢
+  by_cases hr : (decide (used * 10 > 9 * mapSize) || decide (mapSize < chunk)) = true
+  · simp only [hr, Bool.not_true, Bool.false_eq_true, if_false] at h ⊢
+    by_cases hm : mapSize < chunk
+    · simp [hm]
+    · simp only [hm, if_false]
+      apply growLoop_mod
+      have h1 := Nat.div_add_mod mapSize chunk
+      have : mapSize - mapSize % chunk = chunk * (mapSize / chunk) := by omega
+      rw [this, Nat.mul_mod_right]
+  · simp [hr] at h
+
+/-- when it does not fire, the usage is at most 90 % of the (unchanged) map -/
+theorem needsResize_false (mapSize used chunk : Nat) (h : (needsResize mapSize used chunk).1 = false) :
+    (needsResize mapSize used chunk).2 = mapSize ∧ used * 10 ≤ 9 * mapSize := by
+  unfold needsResize at h ⊢
+  simp only at h ⊢
+  by_cases hr : (decide (used * 10 > 9 * mapSize) || decide (mapSize < chunk)) = true
+  · simp only [hr, Bool.not_true, Bool.false_eq_true, if_false] at h
+    by_cases hm : mapSize < chunk <;> simp [hm] at h
+  · simp only [hr, Bool.not_false, if_true]
+    simp only [Bool.or_eq_true, decide_eq_true_eq, not_or, Nat.not_lt] at hr
+    exact ⟨trivial, by omega⟩
+
 end GV.Kv
